@@ -31,11 +31,26 @@ ASSUMPTIONS = [
 ]
 
 
+class EmptyProblems(GlomError):
+    """a GlomError that is FALSY (sized by its list of problems, raised with none): abandoned like any other GlomError, and shown"""
+    def __init__(self, *problems):
+        GlomError.__init__(self, *problems)
+        self.problems = list(problems)
+
+    def __len__(self):
+        return len(self.problems)
+
+    def get_message(self):
+        return 'problems: %r' % (self.problems,)
+
+
 class Fn:
     def __init__(self, name):
         self.name = name
 
     def __call__(self, t):
+        if self.name == 'falsy':
+            raise EmptyProblems()
         if self.name == 'boom':
             raise ValueError('boom from fn')
         if self.name == 'copy':
@@ -195,6 +210,8 @@ def ev(term, target):
             raise F('SyntaxError', False)
         if term[1] in ('nested', 'nestedlog'):
             raise F('PathAccessError')
+        if term[1] == 'falsy':
+            raise F('EmptyProblems')
         return target
     if k == 'check':
         if type(target) is str:
@@ -584,7 +601,7 @@ def kinds(term):
 
 
 OK_LEAVES = [['path', 'a'], ['fn', 'ok'], ['fn', 'copy'], ['T', 'n'], ['val', 'v'], ['Tbare']]
-FAIL_LEAVES = [['path', 'zz'], ['T', 'zz'], ['Tattr', 'zz'], ['fn', 'boom'], ['fn', 'syntax'], ['fn', 'nested'], ['fn', 'nestedlog'], ['check'], ['m', 5], ['match'], ['S', 'zz'], ['path', 'a.zz']]
+FAIL_LEAVES = [['path', 'zz'], ['T', 'zz'], ['Tattr', 'zz'], ['fn', 'boom'], ['fn', 'syntax'], ['fn', 'nested'], ['fn', 'nestedlog'], ['fn', 'falsy'], ['check'], ['m', 5], ['match'], ['S', 'zz'], ['path', 'a.zz']]
 
 
 def outcome_of(term):
